@@ -310,10 +310,12 @@ vf_abort_handler_(int sig)
 	signal(SIGABRT, SIG_DFL);
 }
 
+#ifndef VF_NO_ABORT_HANDLER
 __attribute__((constructor)) static void
 vf_install_handlers_(void)
 {
 	signal(SIGABRT, vf_abort_handler_);
 }
+#endif
 
 #endif
